@@ -120,6 +120,8 @@ var advStrings = []string{
 	"#hash", "a #b", "&anchor", "*alias", "!tag", "|", ">", "%pct", "@at", "`tick", "'single'", "\"double\"",
 	"", " ", "0", "1", "-1", "+1", "1.0", "0.5", "1e-3", "0b101", "123456789012345678901234567890", "<<", "=",
 	"plain", "value-1", "x.y", "a/b", "a\\b",
+	// a `$` that starts no variable reference, followed by non-ASCII text (the var expander must copy it verbatim)
+	"$€uro", "cost $5 ✓", "$ünï", "100$", "$",
 }
 
 func advString(r *Rng) string {
@@ -212,6 +214,10 @@ func genResource(r *Rng, ki kindInfo, name string, tracer string) obj {
 	}
 	if !ki.Cluster && r.Chance(20) {
 		meta["namespace"] = r.Pick([]string{"preset", "other"})
+	}
+	if r.Chance(30) {
+		// an untargeted annotation with adversarial text (metadata/annotations is a varReference path of every kind)
+		meta["annotations"].(obj)["note"] = advStringNoNL(r)
 	}
 	o := obj{"apiVersion": ki.APIVersion, "kind": ki.Kind, "metadata": meta}
 	lbl := obj{"app": name}
@@ -525,9 +531,11 @@ func genTree(r *Rng, o treeOpts) *GenTree {
 			// extra field specs through `configurations:` (custom transformer config merged into the defaults)
 			cfg := obj{}
 			fs := func() obj {
-				e := obj{"path": r.Pick([]string{"spec/extra/labels", "spec/free", "metadata/labels", "spec/nested/deep"}), "create": r.Bool()}
+				// paths and kinds on both sides of the default rows in the sorted tables (a spec that sorts before the
+				// default wildcard rows exposes slices shared between kustomizations, seeded C02-f)
+				e := obj{"path": r.Pick([]string{"spec/extra/labels", "spec/free", "metadata/labels", "spec/nested/deep", "metadata/aaa", "spec/aaa/labels"}), "create": r.Bool()}
 				if r.Bool() {
-					e["kind"] = r.Pick([]string{"MyKind", "Widget"})
+					e["kind"] = r.Pick([]string{"MyKind", "Widget", "Deployment", "ConfigMap", "Service"})
 				}
 				return e
 			}
@@ -544,8 +552,55 @@ func genTree(r *Rng, o treeOpts) *GenTree {
 		}
 		t.Layers = append(t.Layers, l)
 	}
+	if hasDir(o, "crds") {
+		// a `crds:` file in the innermost layer: the CRD loader (accumulator.makeConfigFromApiMap / loadCrdIntoConfig)
+		// ranges over Go maps of definitions and properties; what it derives (label-selector, annotation and
+		// name-reference field specs for the custom kinds) must not depend on the iteration order
+		t.Layers[0].Files["crd.json"] = crdJSON01
+		t.Layers[0].Kust["crds"] = []interface{}{"crd.json"}
+	}
+	if hasDir(o, "vars") && len(t.Resources) > 0 {
+		// one well-defined variable in the top layer (never referenced): with `vars:` present the variable expander
+		// runs over every varReference path; text that is no reference must pass through unchanged
+		gr := t.Resources[r.Intn(len(t.Resources))]
+		top := t.Layers[len(t.Layers)-1]
+		top.Kust["vars"] = []interface{}{obj{
+			"name":     "VERIF_VAR",
+			"objref":   obj{"apiVersion": gr.Obj["apiVersion"], "kind": gr.Obj["kind"], "name": gr.Obj["metadata"].(obj)["name"]},
+			"fieldref": obj{"fieldpath": "metadata.name"},
+		}}
+	}
 	return t
 }
+
+// crdJSON01: OpenAPI definitions for the custom kinds of the generator (MyKind, Widget), several extension
+// properties each so that the loader's map iteration has something to permute.
+const crdJSON01 = `{
+ "example.com/v1.MyKind": {"Schema": {"properties": {
+   "apiVersion": {"type": "string"}, "kind": {"type": "string"}, "metadata": {"type": "object"},
+   "spec": {"$ref": "example.com/v1.MyKindSpec"}}}},
+ "example.com/v1.MyKindSpec": {"Schema": {"properties": {
+   "selector": {"type": "object", "x-kubernetes-label-selector": ""},
+   "nested": {"type": "object", "x-kubernetes-annotation": ""},
+   "extra": {"type": "object", "x-kubernetes-annotation": ""},
+   "cmRef": {"type": "object", "x-kubernetes-object-ref-api-version": "v1", "x-kubernetes-object-ref-kind": "ConfigMap"},
+   "secretRef": {"type": "object", "x-kubernetes-object-ref-api-version": "v1", "x-kubernetes-object-ref-kind": "Secret"},
+   "saRef": {"type": "object", "x-kubernetes-object-ref-api-version": "v1", "x-kubernetes-object-ref-kind": "ServiceAccount", "x-kubernetes-object-ref-name-key": "account"},
+   "free": {"type": "string"}}}},
+ "example.com/v1beta1.Widget": {"Schema": {"properties": {
+   "apiVersion": {"type": "string"}, "kind": {"type": "string"}, "metadata": {"type": "object"},
+   "spec": {"$ref": "example.com/v1beta1.WidgetSpec"}}}},
+ "example.com/v1beta1.WidgetSpec": {"Schema": {"properties": {
+   "selector": {"type": "object", "x-kubernetes-label-selector": ""},
+   "owner": {"type": "object", "x-kubernetes-annotation": ""},
+   "nested": {"type": "object", "x-kubernetes-label-selector": ""},
+   "cmRef": {"type": "object", "x-kubernetes-object-ref-api-version": "v1", "x-kubernetes-object-ref-kind": "ConfigMap"},
+   "tmpl": {"$ref": "example.com/v1beta1.WidgetTmpl"}}}},
+ "example.com/v1beta1.WidgetTmpl": {"Schema": {"properties": {
+   "labels": {"type": "object", "x-kubernetes-label-selector": ""},
+   "secretRef": {"type": "object", "x-kubernetes-object-ref-api-version": "v1", "x-kubernetes-object-ref-kind": "Secret"}}}}
+}
+`
 
 func advStringNoNL(r *Rng) string {
 	for i := 0; i < 20; i++ {
